@@ -22,10 +22,12 @@ RULE = (
     "random/hostile + the unmappable classes out_of_range/surrogate/digest; boundaries 2^31, 2^63, epoch +-1us, 2^32 us, "
     "year 1 / 9999, single-precision limits) is forced into the first record of a history, every kind of second record "
     "type (other name, renamed/extra/dropped/reordered field, other flow type with the same Avro type) and every unmapped "
-    "field type is written first or after valid records; three modes: clean (only mappable records), stop (close after the "
+    "field type is written first or after valid records, and a GroupedRecord of 1-3 members (first member of the file's type, "
+    "group named on its own or like that type) is offered first or after plain records; three modes: clean (only mappable records), stop (close after the "
     "first refusal), continue (keep writing after refusals).  Oracle (independent model verif/avro_c19.py, never "
     "AVRO_TYPE_MAP): a record whose descriptor is the file's type and whose every slot is in the Avro range MUST be accepted; "
-    "any other record is refused with an exception or else stored faithfully; after flush+close the file read by "
+    "any other record is refused with an exception or else stored faithfully (a grouped record: its flat values under its "
+    "flat descriptor, never nulls); after flush+close the file read by "
     "RecordReader (must be an AvroReader) and by fastavro.reader directly holds exactly the accepted records in order: same "
     "type name, same field list, embedded doc == [name, [[type, field]...]], values equal by canonical observation except "
     "floats (equal after rounding to single precision) and timestamps (equal UTC instant to the microsecond); raw values "
@@ -99,6 +101,14 @@ def generate(ctx):
                     if ctx.mine(idx):
                         yield {"k": "mixed", "variant": kind, "pos": pos, "mode": mode, "s": subseed("c19", ctx.seed, "mixed", kind, mode, pos, rep)}
                     idx += 1
+        for members in (1, 2, 3):
+            for pos in ("first", "later"):
+                for same_name in (False, True):
+                    for mode in ("stop", "continue"):
+                        if ctx.mine(idx):
+                            yield {"k": "grouped", "members": members, "pos": pos, "same_name": same_name, "mode": mode,
+                                   "s": subseed("c19", ctx.seed, "grouped", members, pos, same_name, mode, rep)}
+                        idx += 1
         for ut in am.UNMAPPED_TYPES:
             for pos in ("first", "later"):
                 mode = ("stop", "continue")[(idx + rep) % 2]
@@ -165,6 +175,14 @@ def build_history(case, thorough):
         else:
             at = rng.randint(1, len(recs))
             recs = recs[:at] + intruders[:1] + recs[at:] + intruders[1:]
+    if k == "grouped":
+        # digest fields stay unset in a plain record but are an empty digest object here; keep the group representable
+        g = am.make_grouped(rng, desc, case["members"], case["same_name"], thorough)
+        if case["pos"] == "first":
+            recs = [g] + recs
+        else:
+            at = rng.randint(1, len(recs))
+            recs = recs[:at] + [g] + recs[at:]
     if k == "unmapped":
         u = unmapped_record(rng, case["ut"], thorough)
         if case["pos"] == "first":
@@ -183,7 +201,10 @@ def classify(recs):
     type_problem = am.descriptor_problem(recs[0]._desc)
     out = []
     for r in recs:
-        if observe.desc_obs(r._desc) != file_type:
+        if am.is_grouped(r):
+            # a grouped record has no Avro form (its packed dictionary is empty): refused, or stored as its flat values
+            out.append(("may", "grouped", None))
+        elif observe.desc_obs(r._desc) != file_type:
             out.append(("may", "second-type", None))
         elif type_problem:
             out.append(("may", type_problem, None))
@@ -305,7 +326,8 @@ def execute(ctx, case):
     for i, _ in refused:
         st = status[i]
         # (text is refused while it is being encoded, after the union branch byte of its own slot went out: any slot index)
-        if st[1] in ENCODER_REASONS and st[2] is not None and (st[2] > 0 or st[1] == "surrogate-text") and any(a > i for a in accepted):
+        partial = st[1] == "grouped" or (st[1] in ENCODER_REASONS and st[2] is not None and (st[2] > 0 or st[1] == "surrogate-text"))
+        if partial and any(a > i for a in accepted):
             first_partial = i
             break
     split = len(expected) if first_partial is None else sum(1 for a in accepted if a < first_partial)
@@ -380,17 +402,20 @@ def execute(ctx, case):
         ctx.cell("second-type", case["variant"], case["pos"])
     elif case["k"] == "unmapped":
         ctx.cell("unmapped", case["ut"], case["pos"])
+    elif case["k"] == "grouped":
+        ctx.cell("grouped", case["members"], case["pos"], "same-name" if case["same_name"] else "own-name")
     for r in expected[:50]:
-        for t, n in am.all_slots(r._desc):
+        for t, n in am.compare_slots(r):
             v = getattr(r, n)
             if t == "datetime" and v is not None:
                 m = am.micros(v)
                 ctx.event("dt_value:" + ("pre-1970" if m < 0 else "below-2^32us" if m <= 0xFFFFFFFF else "year>=9999" if v.year >= 9999 else "other"))
             elif t in am.LONG_TYPES and v is not None and n != "_version":
                 ctx.event("long_value:" + ("beyond-int32" if not am.I32[0] <= int(v) <= am.I32[1] else "int32"))
-    ctx.nontrivial(case["k"], case.get("t") or case.get("variant") or case.get("ut"), case.get("vc") or case.get("pos"), mode, case["s"])
+    ctx.nontrivial(case["k"], case.get("t") or case.get("variant") or case.get("ut") or case.get("members"), case.get("vc") or case.get("pos"),
+                   case.get("same_name"), mode, case["s"])
     ctx.sample({"case": case, "descriptor": observe.desc_obs(recs[0]._desc), "statuses": [s[1] or "mappable" for s in status][:8],
-                "accepted": len(accepted), "refused": refused[:3], "first_record": repr(observe.obs(recs[0])[3])[:400]}, kind=case["k"] + ":" + mode)
+                "accepted": len(accepted), "refused": refused[:3], "first_record": repr(observe.obs(recs[0])[2:])[:400]}, kind=case["k"] + ":" + mode)
 
 
 def control_is_clean(ctx, expected, which):
@@ -443,7 +468,7 @@ def _cleanup(path):
 
 def finish(ctx):
     ctx.state["reach"].into(ctx)
-    ctx.note("matrix_cells_expected", len(am.all_cells()) + len(am.VARIANT_KINDS) * 2 + len(am.UNMAPPED_TYPES) * 2 if ctx.shard == 0 else 0)
+    ctx.note("matrix_cells_expected", len(am.all_cells()) + len(am.VARIANT_KINDS) * 2 + len(am.UNMAPPED_TYPES) * 2 + 12 if ctx.shard == 0 else 0)
     ctx.note("avro_schema_types_seen", sorted(ctx.state.get("avro_types", ())))
     ctx.note("TZ", os.environ.get("TZ"))
     if ctx.evaluations:
